@@ -235,7 +235,6 @@ def run(prop, tier, replay):
                     vers.setdefault(o["name"], []).append(sorted(set([bm[o["name"]]] + [bm[a] for a in o["aliases"]])))
                 elif e["k"] == "delete":
                     ever[e["name"]] = set()
-                    vers[e["name"]] = []
                 if e["k"] == "mid":
                     evs.append({"k": "mid", "resolve": e["resolve"]})
                     continue
